@@ -528,9 +528,12 @@ def bits_of(model, ty, v):
     return x.as_long()
 
 
-def run_real(script, fn, sig, argbits, child=False):
+def run_real(script, fn, sig, argbits, child=False, leakcheck=False):
     cmd = [EXTRACT, "run-child" if child else "run", script, fn, sig] + [hex(b) for b in argbits]
-    p = subprocess.run(cmd, capture_output=True, text=True, timeout=60)
+    env = dict(os.environ)
+    if leakcheck:
+        env["VERIF_LEAKCHECK"] = "1"      # warm-up call, then report the change in live heap allocations over a second call
+    p = subprocess.run(cmd, capture_output=True, text=True, timeout=60, env=env)
     line = p.stdout.strip().split("\n")[-1] if p.stdout.strip() else ""
     try:
         return json.loads(line)
@@ -554,7 +557,9 @@ class Outcome:
 def check_program(prog, script, dump, modes, k_loop=4, depth=4, timeout_ms=10000, max_paths=48):
     out = Outcome(os.path.basename(script))
     if dump.get("compile") != "ok":
-        out.status, out.reason = "compile_error", (dump.get("report") or dump.get("compile") or "")[:400]
+        out.status = "compile_error"
+        out.reason = (dump.get("compile") if dump.get("compile") in ("panic", "crash") else "") + " " + (dump.get("report") or dump.get("stderr") or "")[:400]
+        out.reason = out.reason.strip() or "rejected"
         return out
     t0 = time.time()
     try:
